@@ -20,6 +20,8 @@ class Obligation:
         self.expect_sat = expect_sat      # vacuity guard: the query must be SAT (preconditions satisfiable)
         self.solvers, self.timeout = solvers, timeout
         self.backend = "E2"
+        self.skip = None
+        self.optional = False             # attempted only: undecided does not gate and is not counted
         self.status, self.solver, self.time, self.model, self.output, self.file = None, None, 0.0, None, "", None
         self.replay = replay              # callable(model)-> dict describing replay on the real code
 
@@ -120,6 +122,9 @@ def parse_model(text):
 
 def discharge(ob, tier="quick", default_timeout=60):
     """Run one obligation. status ∈ discharged / refuted / undecided (or vacuity-ok / vacuous)."""
+    if ob.optional and tier != "thorough":
+        ob.status, ob.output = "undecided", "optional obligation: attempted in the thorough tier only"
+        return ob
     os.makedirs(os.path.join(BUILD, "smt"), exist_ok=True)
     path = os.path.join(BUILD, "smt", re.sub(r"[^A-Za-z0-9_.-]", "_", ob.name) + ".smt2")
     with open(path, "w") as f:
@@ -129,6 +134,13 @@ def discharge(ob, tier="quick", default_timeout=60):
     timeout = ob.timeout or default_timeout
     t0 = time.time()
     results = []
+    if getattr(ob, "ring_result", None):
+        ob.time = ob.ring_time
+        ob.status, ob.solver = "discharged", "ring"
+        ob.output = "ring:unsat(%.2fs)" % ob.time
+        ob.per_solver = {"ring": ("unsat", round(ob.time, 3))}
+        if tier != "thorough": return ob
+        results.append(("ring", "unsat", ob.time, "unsat"))
     if tier == "thorough":
         with ThreadPoolExecutor(len(solvers)) as ex:
             results = list(ex.map(lambda s: _run_one(s, path, timeout), solvers))
@@ -185,8 +197,32 @@ def discharge(ob, tier="quick", default_timeout=60):
     return ob
 
 
+_RING_OBS = []
+
+
+def _ring_worker(i):
+    from . import ring
+    ob = _RING_OBS[i]
+    t0 = time.time()
+    try:
+        ok = ring.prove(ob.assumptions, ob.goal)
+    except Exception:
+        ok = False
+    return ok, time.time() - t0
+
+
 def discharge_all(obls, tier="quick", jobs=None, default_timeout=60):
-    jobs = jobs or min(16, max(1, (os.cpu_count() or 4) // 2))
-    with ThreadPoolExecutor(jobs) as ex:
+    """Phase 1: exact polynomial normalisation (`ring`) in forked worker processes; phase 2: SMT solvers."""
+    global _RING_OBS
+    jobs = jobs or min(16, max(1, (os.cpu_count() or 4)))
+    cand = [o for o in obls if not o.expect_sat and not (o.optional and tier != "thorough") and "ring" not in (o.skip or ()) and (o.goal.op == "=" or o.goal.op == "and")]
+    if cand:
+        import multiprocessing as mp
+        _RING_OBS = cand
+        with mp.get_context("fork").Pool(min(jobs, len(cand))) as pool:
+            for o, (ok, dt) in zip(cand, pool.map(_ring_worker, range(len(cand)), chunksize=1)):
+                o.ring_result, o.ring_time = ok, dt
+        _RING_OBS = []
+    with ThreadPoolExecutor(max(1, jobs // 2)) as ex:
         list(ex.map(lambda o: discharge(o, tier, default_timeout), obls))
     return obls
